@@ -23,7 +23,7 @@ def sel_proof(pred, named=None):
 UNIT = Unit(
     name="mint", uses="group_core_axioms",
     prelude=["core.rs", "raw.rs", "iter.rs", "crypto.rs", "state_abs.rs", "num.rs", "melswap.rs"],
-    lemmas=["sums.rs", "iterlem.rs", "coinsview.rs", "tips.rs", "apply.rs", "stateinv.rs", "mint.rs"],
+    lemmas=["sums.rs", "iterlem.rs", "coinsview.rs", "tips.rs", "apply.rs", "stateinv.rs", "microergs.rs", "mint.rs"],
     items=[
         TypeItem(S, "struct", "UnsealedState"),
         Raw("use num::{BigInt, BigRational, rational::Ratio};"),
@@ -314,7 +314,24 @@ UNIT = Unit(
                    C("inv", "st.coins.wf() && (spec_tip906(s0) ==> counts_ok(st.coins@)) && origin_ok(st.coins@.coins) && (!spec_tip906(s0) ==> st.coins@.counts == s0.coins@.counts)", "C20"),
                    C("done", "wds_done(s0.pools@, c0, s0.height, reqs, done_set(pools@, it.index@ as int), wl, wr, st.pools@, st.coins@.coins)", "C15", "C01"),
                ])]),
-        Fn(M, "process_pegging", mode="assume", **mm_phase("pegging")),
+        Fn(M, "dosc_inflator", mode="assume", **mm_dosc_inflator()),
+        Fn(M, "process_pegging", home="C16", implicit_props=("C09", "C16", "C01"), **mm_process_pegging(),
+           uses="group_core_axioms, axiom_builtin_order, axiom_bytes_lt, axiom_denom_bytes_inj, num::rational::axiom_ratio_den_pos",
+           rewrites=[("MUTPARAM", "state", "st")],
+           injects=[Inject("entry", "let ghost s0 = state; proof { lemma_microergs_pos(state.height.0 as nat); lemma_two_pools_min(state); }"),
+                    Inject(("after_let", "x_d"), """proof { let a = x_s@.n; let b = x_d@.d; let c = x_s@.d; let e = x_d@.n;
+                        assert(a * b > 0) by (nonlinear_arith) requires a > 0, b > 0; assert(c * e > 0) by (nonlinear_arith) requires c > 0, e > 0; }"""),
+                    Inject(("after_let", "x_sd"), "proof { assert(x_sd@.n > 0 && x_sd@.d > 0); }"),
+                    Inject(("after_let", "konstant"), "proof { let a = sm_pool.lefts as int; let b = sm_pool.rights as int; assert(a * b >= 0) by (nonlinear_arith) requires a >= 0, b >= 0; }"),
+                    Inject(("after_let", "desired_x_sm"), """proof { let a = spec_microergs(st.height.0 as nat) as int; let b = x_sd@.n; let c = x_sd@.d;
+                        assert(a * b > 0) by (nonlinear_arith) requires a > 0, b > 0; assert(1_000_000 * c > 0) by (nonlinear_arith) requires c > 0; }"""),
+                    Inject(("after_let", "desired_mel_sqr"), """proof { let k = konstant@; let a = desired_x_sm@.d; let b = desired_x_sm@.n;
+                        assert(k * a >= 0) by (nonlinear_arith) requires k >= 0, a > 0; assert(1 * b > 0);
+                        vstd::arithmetic::div_mod::lemma_div_pos_is_pos(desired_mel_sqr@.n, desired_mel_sqr@.d); }"""),
+                    Inject(("after_let", "desired_sym_sqr"), """proof { let k = konstant@; let a = desired_x_sm@.n; let b = desired_x_sm@.d;
+                        assert(k * a >= 0) by (nonlinear_arith) requires k >= 0, a > 0; assert(1 * b > 0);
+                        vstd::arithmetic::div_mod::lemma_div_pos_is_pos(desired_sym_sqr@.n, desired_sym_sqr@.d); }"""),
+                    Inject("before_tail", "proof { lemma_two_pools_min(st); assert(st.pools@.dom() =~= s0.pools@.dom()); }")]),
         Fn(M, "process_swaps", home="C15", implicit_props=("C09", "C15", "C16", "C01"), **mm_process_swaps(),
            rewrites=[("MUTPARAM", "state", "st"), ("R3", 0)],
            injects=[Inject(("after_let", "swap_reqs"), """let ghost s0 = state; let ghost c0 = state.coins@.coins; let ghost reqs = swap_reqs@;
